@@ -21,6 +21,7 @@ PER_SESSION = [
     ('SELECT-INBOX', b'SELECT INBOX'),
     ('EXAMINE-INBOX', b'EXAMINE INBOX'),
     ('SELECT-Other', b'SELECT Other'),
+    ('EXAMINE-Other', b'EXAMINE Other'),
     ('CLOSE', b'CLOSE'),
     ('RELOGIN', None),
     ('NOOP', b'NOOP'),
@@ -201,11 +202,11 @@ class Model:
             return out
         # selection bookkeeping (control part is C05's business)
         if name in ('SELECT-INBOX', 'EXAMINE-INBOX', 'SELECT-Other',
-                    'SELECT-missing'):
+                    'EXAMINE-Other', 'SELECT-missing'):
             if st.cond == 'OK':
                 rec.epoch += 1
-                mbx = 'Other' if name == 'SELECT-Other' else 'INBOX'
-                ro = name == 'EXAMINE-INBOX'
+                mbx = 'Other' if name.endswith('-Other') else 'INBOX'
+                ro = name.startswith('EXAMINE')
                 rec.sel[slot] = (mbx, ro, rec.epoch)
                 rec.last_recent[slot] = None
                 if mbx == 'INBOX' and not ro:
